@@ -26,7 +26,7 @@ BATCH = 96
 
 def line_shapes(tier):
     ids = ['', '1', '-1', '7', 'x', '99999999999', ' ']
-    cmds = list('CDNdPUunHTEMXx?') + ['Z', '', ':', 'CX']
+    cmds = list('CDNdPUunHTEMXx?') + ['Z', '', ':', 'CX', '\x80', '\xff', '\xfd', '\xc3\xa9', '\x7f', '@']
     atoms = ['a', ':', ':a b', '1_1', 'login.svc', 'stats', 'W' * 300, '10.0.0.1', '%s%n%d%%']
     vecs = [()]
     for n in (1, 2, 3):
@@ -37,12 +37,12 @@ def line_shapes(tier):
         for c in cmds:
             for v in vecs:
                 base = ' '.join([i, c] + list(v)) if i != '' else ' '.join([c] + list(v))
-                out.append(base.encode() + b'\n')
+                out.append(base.encode('latin-1') + b'\n')
                 if len(v) <= 1:
-                    out.append(base.encode() + b'\r\n')
-                    out.append(b' ' + base.encode() + b' \n')
-                    out.append(base.encode()[:len(base) // 2] + b'\0' + base.encode()[len(base) // 2:] + b'\n')
-                    out.append(base.encode() + b'\r')          # CR alone: stays in the buffer, joined with the next line
+                    out.append(base.encode('latin-1') + b'\r\n')
+                    out.append(b' ' + base.encode('latin-1') + b' \n')
+                    out.append(base.encode('latin-1')[:len(base) // 2] + b'\0' + base.encode('latin-1')[len(base) // 2:] + b'\n')
+                    out.append(base.encode('latin-1') + b'\r')          # CR alone: stays in the buffer, joined with the next line
     return out
 
 def reply_shapes():
@@ -61,7 +61,7 @@ def reply_shapes():
     return out
 
 def byte_strings(tier):
-    alpha_b = [b'1', b'-', b' ', b':', b'C', b'N', b'X', b'_', b'\n', b'\r', b'\0', b'a']
+    alpha_b = [b'1', b'-', b' ', b':', b'C', b'N', b'X', b'_', b'\n', b'\r', b'\0', b'a', b'\xff']
     L = 5 if tier == 'thorough' else 4
     out = []
     for n in range(0, L + 1):
@@ -219,6 +219,15 @@ def main(tier):
     for sid, ev, cev, cr in s.crashes:
         run.violation('C08.crash-wellformed', 'the daemon died (%s) on the well-formed line %r after %s' % (cr['status'], cev[1], ' | '.join(proto.ev_str(e) for e in s.sym_history(sid))),
                       s.replay_obj(sid, ev, cev, {'clause': 'C08.crash', 'stderr': cr['err']}), dedup='wf|' + ev[0])
+    # ... and on histories in which the timeout setting itself is reloaded while a client waits (challenge replies included)
+    spec = pcommon.reload_search(tier, 'timeout')
+    kw = dict(spec); kw.pop('merge_check', None); label2 = kw.pop('label')
+    s2 = psearch.Search(run, kw.pop('services'), kw.pop('rules'), kw.pop('timeout'), kw.pop('ids'), kw.pop('alphabet'), label=label2, **kw)
+    s2.go()
+    evaluations += s2.transitions
+    for sid, ev, cev, cr in s2.crashes:
+        run.violation('C08.crash-wellformed', 'the daemon died (%s) on %s after %s' % (cr['status'], proto.ev_str(ev), ' | '.join(proto.ev_str(e) for e in s2.sym_history(sid))),
+                      s2.replay_obj(sid, ev, cev, {'clause': 'C08.crash', 'stderr': cr['err']}), dedup='wf2|' + ev[0])
     streams = []
     seen = set()
     for tr in s.maximal_traces():
